@@ -171,6 +171,28 @@ def c01(rep, tier):
                             why.append('stores %s, contract: %d if %s == %s else %d' % (t_show(vt), v['equal'], v['a'], v['b'], v['different']))
                     elif v['kind'] == 'add_trunc':
                         inner, lower, upper = strip_clamps(vt)
+                        # the saturation may be written as an if-chain (one path per branch): the guards of this path then say which
+                        # piece of max(min(sum, INT_MAX), 0) it is
+                        for gt, gpol in s.p.guards:
+                            if not (isinstance(gt, tuple) and gt[0] == 'cmp' and len(gt) == 4):
+                                continue
+                            op_, a_, b_ = gt[1], gt[2], gt[3]
+                            if is_const(a_) and not is_const(b_):
+                                a_, b_ = b_, a_
+                                op_ = {'<': '>', '>': '<', '<=': '>=', '>=': '<='}.get(op_, op_)
+                            if not is_const(b_):
+                                continue
+                            below = (op_ == '<' and b_[1] == 0) or (op_ == '<=' and b_[1] == -1)
+                            above = (op_ == '>' and b_[1] >= INT_MAX) or (op_ == '>=' and b_[1] > INT_MAX)
+                            if below and gpol and vt == C(0):
+                                inner, lower = a_, True          # the branch "sum < 0": stores 0
+                            elif below and not gpol and a_ == inner:
+                                lower = True                     # the branch "sum >= 0": stores the sum
+                            elif above and gpol and is_const(vt) and vt[1] == INT_MAX:
+                                inner, upper = a_, True
+                                lower = lower or any(isinstance(g2, tuple) and g2[0] == 'cmp' and g2[2] == a_ and g2[1] == '<' and g2[3] == C(0) and not p2 for g2, p2 in s.p.guards)
+                            elif above and not gpol and a_ == inner:
+                                upper = True
                         c, atoms = lin_parts(inner)
                         okat = c == 0 and len(atoms) == 2 and all(k == 1 for k in atoms.values())
                         if okat:
@@ -494,13 +516,33 @@ def c01(rep, tier):
                     gds = [(show(strip_casts(c)).replace(' ', ''), l) for c, l, cn in g.guards_of(ev)]
                     over_ok = gds in ([('(out_node!=NULL)', True)], [('(NULL!=out_node)', True)], [('out_node', True)], [('(out_node==NULL)', False)])
             okout = default_ok and over_ok and len(defs) == 2
+            if not okout and len(defs) == 1 and defs[0][0] == 'init' and defs[0][1] is not None:
+                # the same choice written as one conditional expression: <OUT node exists> ? its name : "x0"
+                i0 = strip_casts(strip_copies(defs[0][1]))
+                while i0 is not None and i0.get('k') == 'construct' and len(i0.get('args', [])) == 1:
+                    i0 = strip_casts(strip_copies(i0['args'][0]))
+                if i0 is not None and i0.get('k') == 'cond':
+                    ctxt = show(strip_casts(i0['c'])).replace(' ', '')
+                    t_, e_ = i0['t'], (i0.get('f') if i0.get('f') is not None else i0.get('e'))
+                    exists_when_true = ctxt in ('(out_node!=NULL)', '(NULL!=out_node)', 'out_node', '(out_node!=nullptr)')
+                    exists_when_false = ctxt in ('(out_node==NULL)', '(NULL==out_node)', '!out_node', '(out_node==nullptr)')
+                    if exists_when_false:
+                        t_, e_ = e_, t_
+                    if exists_when_true or exists_when_false:
+                        okout = 'out_node->tok' in show(t_) and m.strval(dp, e_) == 'x0'
         E.check(okout, 'dispatchProgram: result register', 'the OUT variable, default "x0"', 'the routine returns %s' % show(ro), W(m, dp))
     else:
         E.unknown('dispatchProgram', 'lowering shape not recognised')
     # CALL and built-ins
-    dvf = m.fn('dispatchValue')
+    dvf = m.fn_with_helpers('dispatchValue', lambda fx: any(m.is_factory(x, 'PrepareExec') for x in walk_all_exprs(fx['body']) if x.get('k') == 'call'),
+                            exclude=('dispatchCallArgs', 'strToInt', 'strToIntSilent'))
     rep.analysed(dvf)
     g = m.cfg(dvf)
+
+    def is_tgt(x):
+        """x is dispatchValue's target-register parameter (possibly through a by-value parameter of an inlined helper)"""
+        want = {'k': 'ref', 'd': dvf['params'][2]['d']}
+        return m.same_var(x, want) or m.same_var(m.origin(dvf, x), want)
     prep, exe, argf = find_factory_ev(m, g, 'PrepareExec'), find_factory_ev(m, g, 'Exec'), find_factory_ev(m, g, 'Arg')
     dca = g.calls_to('dispatchCallArgs')
     gh, hcall, hbind = g, None, {}
@@ -527,7 +569,7 @@ def c01(rep, tier):
         ptgt = strip_casts(prep[0].e['args'][2])
         if ptgt.get('k') == 'ref' and ptgt.get('d') in hbind:
             ptgt = strip_casts(hbind[ptgt['d']])
-        E.check(m.same_var(ptgt, {'k': 'ref', 'd': dvf['params'][2]['d']}), 'dispatchValue/CALL: result', 'PREPARE target = the requested target register', 'call result goes to %s' % show(prep[0].e['args'][2]), W(m, dvf))
+        E.check(is_tgt(ptgt), 'dispatchValue/CALL: result', 'PREPARE target = the requested target register', 'call result goes to %s' % show(prep[0].e['args'][2]), W(m, dvf))
         a1 = strip_casts(argf[0].e['args'][1])
         E.check(is_call(a1, '::operator[]') and m.same_var(a1['args'][0], argf[0].e['args'][0]), 'dispatchValue/CALL: Arg(i, arglocs[i])', 'argument i goes to parameter register i',
                 'Arg(%s, %s)' % (show(argf[0].e['args'][0]), show(a1)), W(m, dvf))
@@ -542,7 +584,7 @@ def c01(rep, tier):
             # NAME case: Add(tgt, src, 0)
             src = m.origin(dvf, ev.e['args'][1])
             E.check(strip_casts(cst).get('v') == 0 and is_call(src, 'FunctionGenState::fetchVariableRegister') and 'c->tok' in show(src) and
-                    m.same_var(ev.e['args'][0], {'k': 'ref', 'd': dvf['params'][2]['d']}), 'dispatchValue/NAME', 'Add(tgt, reg(name), 0)', 'variable copy lowered as %s' % show(ev.e), W(m, dvf, ev.e))
+                    is_tgt(ev.e['args'][0]), 'dispatchValue/NAME', 'Add(tgt, reg(name), 0)', 'variable copy lowered as %s' % show(ev.e), W(m, dvf, ev.e))
             continue
         def showc(c):
             # text of a condition with named string constants spelled out
@@ -564,7 +606,8 @@ def c01(rep, tier):
             cst = m.origin(dvf, ev.e['args'][2])
             cst = strip_casts(cst) if cst is not None else None
             if cst is not None and cst.get('k') == 'cond':
-                cnd = showc(cst['c']) if 'showc' in dir() else show(cst['c'])
+                cexp = g.expanded(cst['c'])
+                cnd = showc(cexp) if 'showc' in dir() else show(cexp)
                 def sign_of(x):
                     x = strip_casts(x)
                     return '-' if (x.get('k') == 'un' and x['op'] == '-') else '+'
@@ -580,15 +623,21 @@ def c01(rep, tier):
     if okb:
         for name, (sg, ev) in signs.items():
             a1 = strip_casts(ev.e['args'][1])
-            okb = okb and is_call(a1, '::operator[]') and strip_casts(a1['args'][0]).get('v') == 0 and m.same_var(ev.e['args'][0], {'k': 'ref', 'd': dvf['params'][2]['d']})
+            okb = okb and is_call(a1, '::operator[]') and strip_casts(a1['args'][0]).get('v') == 0 and is_tgt(ev.e['args'][0])
     if signs:
         E.check(okb, 'dispatchValue/built-ins', '__INC__ -> Add(tgt, arg0, +c), __DEC__ -> Add(tgt, arg0, -c)', 'built-in signs: %s' % {k: v[0] for k, v in signs.items()}, W(m, dvf))
     lc = find_factory_ev(m, g, 'LoadConstant')
-    E.check(len(lc) == 1 and m.same_var(lc[0].e['args'][0], {'k': 'ref', 'd': dvf['params'][2]['d']}) and 'strToInt' in show(m.origin(dvf, lc[0].e['args'][1])),
+    E.check(len(lc) == 1 and is_tgt(lc[0].e['args'][0]) and 'strToInt' in show(m.origin(dvf, lc[0].e['args'][1])),
             'dispatchValue/NUMBER', 'LoadConstant(tgt, value of the literal)', 'literal lowered as %s' % (show(lc[0].e) if lc else None), W(m, dvf))
-    das = m.fn('dispatchAssign')
-    g = m.cfg(das)
-    dvc = g.calls_to('dispatchValue')
+    das = m.facts.fn('dispatchAssign', optional=True)
+    if das is None or das.get('body') is None:
+        # the lowering of an assignment may sit directly in the ASSIGN case of dispatchVoid
+        das = m.fn('dispatchVoid')
+        g = m.cfg(das)
+        dvc = [ev for ev in g.calls_to('dispatchValue') if any(isinstance(label, tuple) and label[0] == 'case' and 'ASSIGN' in label[1] for cond, label, cn in g.guards_of(ev))]
+    else:
+        g = m.cfg(das)
+        dvc = g.calls_to('dispatchValue')
     oka = len(dvc) == 1 and field_chain(dvc[0].e['args'][1])[1] == ['right']
     if oka:
         ro = m.origin(das, dvc[0].e['args'][2])
